@@ -79,7 +79,8 @@ void gcry_mpi_randomize(gcry_mpi_t w, unsigned int nbits, enum gcry_random_level
   vf::tl_rng.fill(b.data(), nbytes);
   gcry_mpi_t t = NULL;
   if (nbytes && gcry_mpi_scan(&t, GCRYMPI_FMT_USG, b.data(), nbytes, NULL) == 0) {
-    if (nbits % 8) gcry_mpi_clear_highbit(t, nbits);
+    // like libgcrypt's own routine: whole octets, NO masking down to nbits (callers that need fewer bits clear them themselves;
+    // an earlier version of this double masked here and so hid a missing gcry_mpi_clear_highbit in the caller)
     gcry_mpi_set(w, t); gcry_mpi_release(t);
   } else gcry_mpi_set_ui(w, 0);
 }
@@ -122,6 +123,42 @@ char *__gmpz_get_str(char *str, int base, mpz_srcptr op) {
   }
   return real(str, base, op);
 }
+// The mpz_t OBJECTS handed to libgmp: the library keeps them in new[]-allocated tables (fixed-base exponentiation, caches) and indexes
+// those tables with values derived from its input; GMP reads and writes the 16-byte struct inside the uninstrumented libgmp, so an index
+// one past the end is invisible to ASan (the struct lands in the redzone).  The most used entry points check that every mpz_t they are
+// given lies in addressable memory.
+static inline void sguard(const void *p, const char *who) {
+  if (!p) return;
+  void *bad = __asan_region_is_poisoned(const_cast<void *>(p), sizeof(__mpz_struct));
+  if (bad) {
+    fprintf(stderr, "GMP-GUARD: %s is handed an mpz_t object outside addressable memory (%p)\n", who, p);
+    fprintf(stderr, "SUMMARY: GmpGuard: heap-buffer-overflow in %s\n", who);
+    fflush(stderr);
+    __builtin_trap();
+  }
+}
+#define VF_REAL(ret, name, ...) typedef ret (*fn)(__VA_ARGS__); static fn real = (fn)dlsym(RTLD_NEXT, "__gmpz_" #name)
+void __gmpz_init(mpz_ptr a) { VF_REAL(void, init, mpz_ptr); sguard(a, "mpz_init"); real(a); }
+void __gmpz_init2(mpz_ptr a, mp_bitcnt_t n) { VF_REAL(void, init2, mpz_ptr, mp_bitcnt_t); sguard(a, "mpz_init2"); real(a, n); }
+void __gmpz_clear(mpz_ptr a) { VF_REAL(void, clear, mpz_ptr); sguard(a, "mpz_clear"); real(a); }
+void __gmpz_init_set(mpz_ptr a, mpz_srcptr b) { VF_REAL(void, init_set, mpz_ptr, mpz_srcptr); sguard(a, "mpz_init_set"); sguard(b, "mpz_init_set"); real(a, b); }
+void __gmpz_init_set_ui(mpz_ptr a, unsigned long b) { VF_REAL(void, init_set_ui, mpz_ptr, unsigned long); sguard(a, "mpz_init_set_ui"); real(a, b); }
+void __gmpz_init_set_si(mpz_ptr a, long b) { VF_REAL(void, init_set_si, mpz_ptr, long); sguard(a, "mpz_init_set_si"); real(a, b); }
+void __gmpz_set(mpz_ptr a, mpz_srcptr b) { VF_REAL(void, set, mpz_ptr, mpz_srcptr); sguard(a, "mpz_set"); sguard(b, "mpz_set"); real(a, b); }
+void __gmpz_set_ui(mpz_ptr a, unsigned long b) { VF_REAL(void, set_ui, mpz_ptr, unsigned long); sguard(a, "mpz_set_ui"); real(a, b); }
+void __gmpz_set_si(mpz_ptr a, long b) { VF_REAL(void, set_si, mpz_ptr, long); sguard(a, "mpz_set_si"); real(a, b); }
+int __gmpz_set_str(mpz_ptr a, const char *s, int b) { VF_REAL(int, set_str, mpz_ptr, const char *, int); sguard(a, "mpz_set_str"); return real(a, s, b); }
+void __gmpz_add(mpz_ptr r, mpz_srcptr a, mpz_srcptr b) { VF_REAL(void, add, mpz_ptr, mpz_srcptr, mpz_srcptr); sguard(r, "mpz_add"); sguard(a, "mpz_add"); sguard(b, "mpz_add"); real(r, a, b); }
+void __gmpz_sub(mpz_ptr r, mpz_srcptr a, mpz_srcptr b) { VF_REAL(void, sub, mpz_ptr, mpz_srcptr, mpz_srcptr); sguard(r, "mpz_sub"); sguard(a, "mpz_sub"); sguard(b, "mpz_sub"); real(r, a, b); }
+void __gmpz_mul(mpz_ptr r, mpz_srcptr a, mpz_srcptr b) { VF_REAL(void, mul, mpz_ptr, mpz_srcptr, mpz_srcptr); sguard(r, "mpz_mul"); sguard(a, "mpz_mul"); sguard(b, "mpz_mul"); real(r, a, b); }
+void __gmpz_mod(mpz_ptr r, mpz_srcptr a, mpz_srcptr b) { VF_REAL(void, mod, mpz_ptr, mpz_srcptr, mpz_srcptr); sguard(r, "mpz_mod"); sguard(a, "mpz_mod"); sguard(b, "mpz_mod"); real(r, a, b); }
+void __gmpz_powm(mpz_ptr r, mpz_srcptr a, mpz_srcptr e, mpz_srcptr m) { VF_REAL(void, powm, mpz_ptr, mpz_srcptr, mpz_srcptr, mpz_srcptr); sguard(r, "mpz_powm"); sguard(a, "mpz_powm"); sguard(e, "mpz_powm"); sguard(m, "mpz_powm"); real(r, a, e, m); }
+void __gmpz_powm_ui(mpz_ptr r, mpz_srcptr a, unsigned long e, mpz_srcptr m) { VF_REAL(void, powm_ui, mpz_ptr, mpz_srcptr, unsigned long, mpz_srcptr); sguard(r, "mpz_powm_ui"); sguard(a, "mpz_powm_ui"); sguard(m, "mpz_powm_ui"); real(r, a, e, m); }
+int __gmpz_invert(mpz_ptr r, mpz_srcptr a, mpz_srcptr m) { VF_REAL(int, invert, mpz_ptr, mpz_srcptr, mpz_srcptr); sguard(r, "mpz_invert"); sguard(a, "mpz_invert"); sguard(m, "mpz_invert"); return real(r, a, m); }
+int __gmpz_cmp(mpz_srcptr a, mpz_srcptr b) { VF_REAL(int, cmp, mpz_srcptr, mpz_srcptr); sguard(a, "mpz_cmp"); sguard(b, "mpz_cmp"); return real(a, b); }
+int __gmpz_cmp_ui(mpz_srcptr a, unsigned long b) { VF_REAL(int, cmp_ui, mpz_srcptr, unsigned long); sguard(a, "mpz_cmp_ui"); return real(a, b); }
+size_t __gmpz_sizeinbase(mpz_srcptr a, int b) { VF_REAL(size_t, sizeinbase, mpz_srcptr, int); sguard(a, "mpz_sizeinbase"); return real(a, b); }
+int __gmpz_tstbit(mpz_srcptr a, mp_bitcnt_t b) { VF_REAL(int, tstbit, mpz_srcptr, mp_bitcnt_t); sguard(a, "mpz_tstbit"); return real(a, b); }
 #endif
 
 } // extern "C"
